@@ -40,6 +40,15 @@ def derivatives_native(vc):
     s_mean, s_var = gp.spatial_derivatives(qq)
     g_mean, s_mean, s_var = np.reshape(g_mean, (m, d)), np.reshape(s_mean, (m, d)), np.reshape(s_var, (m, d))
     g_cov = np.reshape(g_cov, (m, d, d))
+    # the predictions depend on the VALUES of the query points only: one buffer queried, moved in place, queried again -- and a
+    # query does not change what later queries return
+    qb = np.array(qq, dtype=float) + 0.25
+    gp.gradient(qb), gp.spatial_derivatives(qb)
+    qb[...] = qq
+    g2, c2 = gp.gradient(qb)
+    s2, v2 = gp.spatial_derivatives(qb)
+    vc.ensures("query_buffer_moved_in_place", bool(np.array_equal(np.reshape(g2, (m, d)), g_mean) and np.array_equal(np.reshape(c2, (m, d, d)), g_cov)
+                                                   and np.array_equal(np.reshape(s2, (m, d)), s_mean) and np.array_equal(np.reshape(v2, (m, d)), s_var)))
     sc = max(1.0, float(np.abs(dmu_fd).max()))
     vc.ensures("gradient_mean_is_derivative_of_predictive_mean", bool(np.allclose(g_mean, dmu_fd, rtol=1e-5, atol=1e-6 * sc)))
     vc.ensures("spatial_derivative_mean_is_derivative_of_predictive_mean", bool(np.allclose(s_mean, dmu_fd, rtol=1e-5, atol=1e-6 * sc)))
